@@ -139,6 +139,10 @@ def run(ctx):
     corpus = load_corpus("C01")
     if corpus:
         st, br = run_cases(ctx, "corpus", corpus); broken += br
+    ex = E.exhaustive_cases(ctx.tier)
+    for part in E.chunks(ex, 20000):
+        st, br = run_cases(ctx, "exhaustive", part); broken += br
+    ctx.coverage["exhaustive"] = True
     n = 3000 if quick else 60000
     for part in range(0, n, 3000):
         cases = E.gen_cases(ctx.rng, min(3000, n - part))
@@ -158,7 +162,7 @@ def run(ctx):
         for k, v in s.items(): tot[k] = tot.get(k, 0) + v
     ctx.coverage["evaluations"] = tot.get("inputs", 0)
     ctx.coverage["distinct_nontrivial"] = tot.get("inputs", 0) - tot.get("diverging", 0)
-    ctx.coverage["rule"] = "seeded random charts (3-14 states; parallel/history/initial/final, internal/targetless/multi-target/eventless transitions, raise/send/log/if/failing elements) x 0-5 external events, null datamodel, plus the corpus of past witnesses; non-trivial = run reaches quiescence within the step cap (diverging runs are compared as prefixes)"
+    ctx.coverage["rule"] = "EXHAUSTIVE: every chart with <= 4 states and <= 2 transitions on one event, every 5-state chart with a >= 2-region parallel and two transitions (thorough: every chart with <= 5 states / 2 transitions and <= 6 states / 1 transition); plus seeded random charts (3-14 states; parallel/history/initial/final, internal/targetless/multi-target/eventless transitions, raise/send/log/if/failing elements) x 0-5 external events, null datamodel, plus the corpus of past witnesses; non-trivial = run reaches quiescence within the step cap (diverging runs are compared as prefixes)"
     ctx.assumptions += ["datamodel plug-ins other than null are exercised by C16/C17 and the lua suite", "Xerces parsing trusted"]
 
 
